@@ -858,6 +858,43 @@ func topLevel(name string) string {
 	return name
 }
 
+// calledOnlyFrom reports whether fn lies inside a function accepted by
+// `allowed` (by the name of its top-level function), or every call-graph caller
+// of its top-level function does — recursively. Helper extraction therefore
+// keeps a who-may-call verdict; a function without callers (entry point, dead
+// code, control) is not accepted. why names the caller that breaks the chain.
+func calledOnlyFrom(p *core.Prog, fn *ssa.Function, allowed func(top string) bool) (ok bool, why string) {
+	seen := map[*ssa.Function]bool{}
+	var visit func(f *ssa.Function, depth int) (bool, string)
+	visit = func(f *ssa.Function, depth int) (bool, string) {
+		root := f
+		for root.Parent() != nil {
+			root = root.Parent()
+		}
+		if allowed(p.Name(root)) {
+			return true, ""
+		}
+		if seen[root] {
+			return true, "" // a cycle adds no new caller
+		}
+		seen[root] = true
+		if depth > 6 {
+			return false, "call chain above " + p.Name(root) + " too deep to follow"
+		}
+		callers := p.Callers(root)
+		if len(callers) == 0 {
+			return false, p.Name(root) + " is not one of the permitted functions and has no caller that is"
+		}
+		for _, e := range callers {
+			if ok, why := visit(e.Caller.Func, depth+1); !ok {
+				return false, why
+			}
+		}
+		return true, ""
+	}
+	return visit(fn, 0)
+}
+
 // funcAndClosures returns fn followed by its (nested) anonymous functions.
 func funcAndClosures(fn *ssa.Function) []*ssa.Function {
 	out := []*ssa.Function{fn}
